@@ -327,6 +327,88 @@ func runHistory(r *rand.Rand, nProd int, pool bool, undisciplined bool) (op, int
 	return op{"ops": h.ops, "producers": nProd, "pool": pool, "undisciplined": undisciplined}, len(h.ops)
 }
 
+// realTimeHistory: time passes by itself (unit 400 ms, timeouts 2 and 3 units) instead of being shifted under the
+// process mutex, so a deadline can pass WHILE a scan is running.  Ingests happen at phase 0.25 of a unit, scans and
+// queries at phase 0.4-0.75, the "Advance" operations are sleeps across the unit boundary (phase 0.8 -> 0.2): with
+// these phases a deadline and a scan instant are never closer than 0.35 unit, so the integer comparison of the model
+// equals the real one.  Scan A starts in unit 2 and its export callback lasts into unit 3; scan B is invoked in
+// unit 3, after flow k2's active deadline has passed.  A history whose operations missed their instants by more
+// than 60 ms (machine stalled) is discarded: returned nops = 0.
+func realTimeHistory(r *rand.Rand) (op, int) {
+	const U = 400 * time.Millisecond
+	p := agg.NewUnit(U, 2, 3, 1, 1)
+	h := &hist{}
+	t0 := time.Now()
+	late := false
+	at := func(units float64) { // sleep until the given instant; note lateness
+		d := time.Until(t0.Add(time.Duration(units * float64(U))))
+		if d < -60*time.Millisecond {
+			late = true
+		}
+		time.Sleep(d)
+	}
+	ingest := func(rec agg.Rec) {
+		inv := h.begin()
+		err := p.A.AggregateMsgByFlowKey(agg.BuildMessage(rec))
+		h.end(op{"kind": "Ingest", "r": rec, "err": err != nil}, inv)
+	}
+	s1 := &stream{key: "k1", kind: "intra", end: 1000, start: 1000, vals: make([]int, 6)}
+	s2 := &stream{key: "k2", kind: "intra", end: 1010, start: 1010, vals: make([]int, 6)}
+	var wg sync.WaitGroup
+	// the clock: one Advance operation per unit boundary
+	wg.Add(1)
+	go func() {
+		defer wg.Done()
+		for n := 0; n < 4; n++ {
+			at(float64(n) + 0.8)
+			inv := h.begin()
+			at(float64(n) + 1.2)
+			h.end(op{"kind": "Advance", "d": 1}, inv)
+		}
+	}()
+	scan := func(slowUntil float64) {
+		calls := []string{}
+		exports := []any{}
+		inv := h.begin()
+		err := p.A.ForAllExpiredFlowRecordsDo(func(k intermediate.FlowKey, rec *intermediate.AggregationFlowRecord) error {
+			n := agg.KeyName(k)
+			calls = append(calls, n)
+			exports = append(exports, exportProj(n, rec, p))
+			if slowUntil > 0 {
+				at(slowUntil) // a slow export: the scan is still running when the next unit has begun
+			}
+			return p.A.ResetStatAndThroughputElementsInRecord(rec.Record)
+		})
+		h.end(op{"kind": "Scan", "fail": []string{}, "calls": calls, "exports": exports, "err": err != nil}, inv)
+	}
+	at(0.25)
+	ingest(s1.next(r, false))
+	at(1.25)
+	ingest(s2.next(r, false))
+	ingest(s1.next(r, false))
+	wg.Add(2)
+	go func() { defer wg.Done(); at(2.75); scan(3.6) }() // A: k1's active deadline (2.25) has passed, k2's (3.25) has not
+	go func() { defer wg.Done(); at(3.4); scan(0) }()    // B: invoked in unit 3, k2's deadline has passed
+	wg.Wait()
+	at(4.4)
+	inv := h.begin()
+	n := p.A.GetNumFlows()
+	h.end(op{"kind": "NumFlows", "n": int(n)}, inv)
+	inv = h.begin()
+	h.end(op{"kind": "GetAll", "flows": flowList(p)}, inv)
+	if late || time.Since(t0) > 44*U/10+150*time.Millisecond {
+		return nil, 0
+	}
+	sort.SliceStable(h.ops, func(i, j int) bool {
+		ri, rj := h.ops[i]["ret"].(int64), h.ops[j]["ret"].(int64)
+		if ri != rj {
+			return ri > rj
+		}
+		return h.ops[i]["inv"].(int64) > h.ops[j]["inv"].(int64)
+	})
+	return op{"ops": h.ops, "producers": 1, "pool": false, "undisciplined": false, "realtime": true}, len(h.ops)
+}
+
 func main() {
 	flag.Parse()
 	thorough := *tier == "thorough"
@@ -358,6 +440,34 @@ func main() {
 		f.Write(b)
 		f.Write([]byte("\n"))
 	}
+	// real-time family: a deadline passes while a scan is running (several at once: they only sleep)
+	nrt := 3
+	if thorough {
+		nrt = 12
+	}
+	runtime.GOMAXPROCS(16)
+	type res struct {
+		h op
+		n int
+	}
+	rch := make(chan res, nrt)
+	for i := 0; i < nrt; i++ {
+		sd := r.Int63()
+		go func() { hh, nn := realTimeHistory(rand.New(rand.NewSource(sd))); rch <- res{hh, nn} }()
+	}
+	discarded := 0
+	for i := 0; i < nrt; i++ {
+		x := <-rch
+		if x.n == 0 {
+			discarded++
+			continue
+		}
+		total += x.n
+		n++
+		b, _ := json.Marshal(x.h)
+		f.Write(b)
+		f.Write([]byte("\n"))
+	}
 	f.Close()
-	vt.PrintSummary(vt.Summary{Events: total, Traces: n, Evaluations: total, Distinct: len(dist)})
+	vt.PrintSummary(vt.Summary{Events: total, Traces: n, Evaluations: total, Distinct: len(dist), Extra: map[string]any{"realtime_discarded_late": discarded}})
 }
